@@ -325,6 +325,44 @@ def ev_cookie_simple(pairs):
     return res
 
 
+CQ_ALPHA = ["\\", "0", "1", "3", "4", "7", "8", "9", '"', "a", ";"]
+
+
+def ref_unquote(inner):
+    """RFC 2109 style unquoting of the inside of a quoted cookie value: backslash + three octal digits
+    (000-377) is that character, backslash + any other character is that character."""
+    out, i = [], 0
+    while i < len(inner):
+        c = inner[i]
+        if c == "\\" and i + 1 < len(inner):
+            o = inner[i + 1:i + 4]
+            if len(o) == 3 and o[0] in "0123" and o[1] in "01234567" and o[2] in "01234567":
+                out.append(chr(int(o, 8)))
+                i += 4
+            else:
+                out.append(inner[i + 1])
+                i += 2
+        else:
+            out.append(c)
+            i += 1
+    return "".join(out)
+
+
+def ev_cookie_quoted(inner):
+    """k="<inner>" : parse_cookie never raises; without a ';' inside, the value is the unquoted string."""
+    httputil = T()[0]
+    s = 'k="%s"' % inner
+    r = call(httputil.parse_cookie, s)
+    res = Res("must", "cookie-quoted", "\\" in inner, got=r)
+    if r[0] == "exc":
+        return res.bad(exc_sig("parse_cookie", r), "parse_cookie(%r) raised %s" % (s, r[1]))
+    if ";" not in inner and '"' not in inner:
+        want = {"k": ref_unquote(inner)}
+        if r[1] != want:
+            res.bad("parse_cookie:quoted-value", "parse_cookie(%r) = %r, expected %r" % (s, r[1], want))
+    return res
+
+
 # ------------------------------------------------------------------ format_timestamp
 TS_FORMS = ["int", "float", "float.5", "struct", "tuple", "tuple-isdst1", "naive", "naive-us",
             "int-subclass"] + ["aware%+d" % o for o in TS_OFFSETS]
@@ -566,7 +604,7 @@ def interesting_cp(cp):
     return cp < 0x3000 or 0xD800 <= cp < 0xE000 or 0xFF00 <= cp < 0xFFFF
 
 
-EV = {"sl": ev_startline, "nr": ev_noraise, "enc": ev_encode_rt, "ck": ev_cookie_simple,
+EV = {"sl": ev_startline, "nr": ev_noraise, "enc": ev_encode_rt, "ck": ev_cookie_simple, "cq": ev_cookie_quoted,
       "ts": ev_timestamp, "url": ev_url, "re": ev_reunescape, "ren": ev_reunescape_neg,
       "ip": ev_ip}
 
@@ -786,6 +824,10 @@ class C43(Check):
         for m in (1, 2, 3):
             for ps in itertools.product(pairs, repeat=m):
                 self.run_case(st, ("ck", list(ps)))
+        # quoted values with backslash / octal escapes
+        for m in range(0, 5 if tier == "quick" else 6):
+            for t in itertools.product(CQ_ALPHA, repeat=m):
+                self.run_case(st, ("cq", "".join(t)))
         # long inputs (no catastrophic regex behaviour, no recursion)
         for big in (5000, 65536):
             for line in ("GET /" + "a" * big + " HTTP/1.1", "G" * big + " / HTTP/1.1",
